@@ -195,6 +195,11 @@ class SArr(Sym):
         return self.transpose()
 
     @property
+    def real(self):
+        """ndarray.real of a real / int / bool array is the array itself (complex values are not modelled)"""
+        return self
+
+    @property
     def dtype(self):
         return {'real': 'float64', 'int': 'int64', 'bool': 'bool'}.get(self.kind, self.kind)
 
